@@ -29,6 +29,7 @@ from symx import core  # noqa: E402
 
 KNOWN_FILE = os.path.join(ROOT, "known_findings.json")
 MAX_REPLAYS_PER_FN = 3  # further counterexamples of the same harness function are counted, not replayed one by one
+MAX_REPLAY_ATTEMPTS_PER_FN = 12  # ... but a counterexample that does not reproduce does not use up that allowance: the next ones are still tried
 
 
 def load_known(prop):
@@ -312,16 +313,17 @@ def main(argv=None):
             selfcheck.kill()
             errors.append(dict(key="symx.selfcheck", result="error", why="engine self-check did not complete: %s" % e))
     confirmed_known = set()
-    replayed_per_fn = {}
+    replayed_per_fn = {}  # reproduced counterexamples per harness function
+    attempts_per_fn = {}
     unreplayed = 0
     for r in sorted(results, key=lambda r: r["key"]):
         confirm = r["mode"].get("confirm")
         if r["result"] == "cex":
             fk = (r["fn"], confirm)
-            replayed_per_fn[fk] = replayed_per_fn.get(fk, 0) + 1
-            if replayed_per_fn[fk] > MAX_REPLAYS_PER_FN:
+            if replayed_per_fn.get(fk, 0) >= MAX_REPLAYS_PER_FN or attempts_per_fn.get(fk, 0) >= MAX_REPLAY_ATTEMPTS_PER_FN:
                 unreplayed += 1
                 continue
+            attempts_per_fn[fk] = attempts_per_fn.get(fk, 0) + 1
             # the evidence path is part of the name: concurrent runs of the same check (seed trials in scratch worktrees) must not share replay files
             tag = "%s_%s_%s" % (prop, r["fn"], hashlib.sha256((r["key"] + str(confirm) + str(a.evidence or "") + REPO).encode()).hexdigest()[:10])
             path = os.path.join(ROOT, "replays", tag + ".json")
@@ -333,6 +335,7 @@ def main(argv=None):
             r["replay_out"] = p.stdout[-800:] + p.stderr[-800:]
             r["replay_path"] = path
             if p.returncode == 10:
+                replayed_per_fn[fk] = replayed_per_fn.get(fk, 0) + 1
                 if confirm:
                     confirmed_known.add(confirm)
                 else:
